@@ -1,11 +1,11 @@
 import Pycoin.Proofs.Ripemd160
-import Pycoin.Model.History
+import Pycoin.Model.HashHistory
 /-!
 C19 — histories: run with the implementation models, every digest answer in any history on reused buffers equals
 the standard digest of the buffer's contents at that step.  (Immediate from the per-call theorems, because the
 model keeps no state between calls — which is exactly what the correspondence check tests against the code.)
 -/
-namespace Pycoin.History
+namespace Pycoin.HashHistory
 open Pycoin.Hash
 
 /-- a byte string (`bytes` or `bytearray`) the code can length-encode -/
@@ -118,4 +118,4 @@ theorem exec_agree (impl : HashPy.Impl) : ∀ (steps : List Step) (st : State), 
     simp only [exec, h1]
     rw [exec_agree impl rest _ h2 (fun t ht => hg t (by simp [ht]))]
 
-end Pycoin.History
+end Pycoin.HashHistory
